@@ -917,7 +917,7 @@ func (e *Enc) callSiteHyp(c *Clause, penv *SpecEnv) (out string) {
 	defer func() {
 		if r := recover(); r != nil {
 			e.restoreMode(mode)
-			if ce, ok := r.(contractErr); ok && (strings.Contains(ce.msg, "unknown identifier") || strings.Contains(ce.msg, "local(") || strings.Contains(ce.msg, "callres(") || strings.Contains(ce.msg, "outer(")) {
+			if ce, ok := r.(contractErr); ok && (strings.Contains(ce.msg, "unknown identifier") || strings.Contains(ce.msg, "local(") || strings.Contains(ce.msg, "callres(") || strings.Contains(ce.msg, "callarg(") || strings.Contains(ce.msg, "outer(")) {
 				out = "true"
 				return
 			}
